@@ -287,6 +287,23 @@ fn c08_one(rep: &mut Report, fam: &str, r: &RVal) {
 		o.object_limit = Some(json_syntax::print::Limit::Item(0));
 		let _ = guard(|| v.print_with(o).to_string());
 	}
+	// the same content in other storage (objects filled with the front mutators, strings and keys on the
+	// heap whatever their length, spare capacity): compact output is a function of the value
+	if rep.evaluations % 2 == 0 || want.len() < 64 {
+		let alt = crate::monitor::conv::from_rval_storage(r);
+		rep.count("renderings_compared", 2);
+		for (name, got) in [("compact_print().to_string() of an equal value held in other storage", guard(|| alt.compact_print().to_string())), ("to_string() of an equal value built with push", guard(|| from_rval_push(r).to_string()))] {
+			match got {
+				Err(p) => rep.violation("C08:panic", format!("[{}] {} panicked on {}: {}", fam, name, show(want.as_bytes()), p), json!({"sub": "compact", "value_compact": want})),
+				Ok(g) if g != want => rep.violation(
+					"C08:bytes-differ:other-storage",
+					format!("[{}] {} = `{}`, the reference serializer gives `{}`", fam, name, show(g.as_bytes()), show(want.as_bytes())),
+					json!({"sub": "compact", "value_compact": want}),
+				),
+				Ok(_) => (),
+			}
+		}
+	}
 	let forms: [(&str, Result<String, String>); 6] = [
 		("compact_print().to_string()", guard(|| v.compact_print().to_string())),
 		("to_string()", guard(|| v.to_string())),
@@ -666,6 +683,30 @@ impl PrintMon {
 						case_json("print", r, o),
 					);
 				}
+			}
+			// a format specification on the placeholder is ignored or applied to the rendering as a whole
+			if self.rep.evaluations % 4 == 1 && want.len() <= 300 {
+				let ro = o.to_real();
+				macro_rules! spec {
+					($fmt:literal) => {{
+						let got = guard(|| format!($fmt, v.print_with(ro.clone())));
+						let whole = format!($fmt, want.as_str());
+						self.rep.count("layouts_compared_under_a_format_specification", 1);
+						match got {
+							Ok(g) if g == want || g == whole => (),
+							other => self.rep.violation(
+								"C13:layout-differs:format-specification",
+								format!("[{}] value {} under {} printed with `{}`: {:?}; expected the documented layout `{}` (specification ignored) or that text padded / truncated as a whole", fam, show(doc_of(r).as_bytes()), opts_json(o), $fmt, other.map(|g| show(g.as_bytes())), show(want.as_bytes())),
+								case_json("print", r, o),
+							),
+						}
+					}};
+				}
+				spec!("{:9}");
+				spec!("{:.2}");
+				spec!("{:>7.3}");
+				spec!("{:+}");
+				spec!("{:#}");
 			}
 			if text != want {
 				self.rep.violation(
@@ -1106,6 +1147,32 @@ fn run_print(cfg: &Config, id: &'static str) -> i32 {
 		rep
 	});
 	total.merge(rep);
+
+	// every Unicode scalar value, 64 consecutive ones per string, as a string and as a key
+	if c04 && !cfg.san {
+		let rep = parallel(cfg.threads, 64, |sh| {
+			let mut mon = PrintMon {
+				rep: Report::new(),
+				reader: Reader::new(),
+				c04: true,
+				c13: false,
+			};
+			let mut block = sh as u32;
+			while block * 64 < 0x110000 {
+				let s: String = (block * 64..block * 64 + 64).filter_map(char::from_u32).collect();
+				if !s.is_empty() {
+					let r = if block % 2 == 0 { RVal::Arr(vec![RVal::Str(s)]) } else { RVal::Obj(vec![(s, RVal::Null)]) };
+					let v = from_rval(&r);
+					mon.one("every-scalar-value-in-blocks-of-64", &r, &v, &(if block % 3 == 0 { POpts::pretty() } else { POpts::compact() }));
+					mon.rep.distinct_by_construction(1);
+				}
+				block += 64;
+			}
+			mon.rep.count("family:every-scalar-value-in-blocks-of-64", mon.rep.evaluations);
+			mon.rep
+		});
+		total.merge(rep);
+	}
 
 	// values obtained through `Deserialize for Value` from a foreign deserializer that hands over the
 	// number token map with an arbitrary string: whatever value comes out must print as valid JSON
